@@ -208,6 +208,38 @@ fn mutations(rng: &mut Prng, valid: &str, hdr_len: usize) -> Vec<String> {
     }
     v.push(valid[1..].to_string());
     v.push(format!("{}{}", &valid[..hdr_len], &valid[hdr_len - 1..]));
+    // structural header damage: each '.'-separated part of the header removed, repeated (glued and dotted), cut short; the whole
+    // header repeated; the header moved behind the body
+    {
+        let hdr = &valid[..hdr_len];
+        let rest = &valid[hdr_len..];
+        let parts: Vec<&str> = hdr.trim_end_matches('.').split('.').collect();
+        let join = |ps: &[String]| -> String { format!("{}.{}", ps.join("."), rest) };
+        for i in 0..parts.len() {
+            let own: Vec<String> = parts.iter().map(|p| p.to_string()).collect();
+            let mut a = own.clone();
+            a.remove(i);
+            v.push(if a.is_empty() { rest.to_string() } else { join(&a) });
+            v.push(format!(".{}", join(&a)));
+            let mut g = own.clone();
+            g[i] = format!("{0}{0}", parts[i]);
+            v.push(join(&g));
+            let mut g3 = own.clone();
+            g3[i] = format!("{0}{0}{0}", parts[i]);
+            v.push(join(&g3));
+            let mut d = own.clone();
+            d.insert(i, parts[i].to_string());
+            v.push(join(&d));
+            for cut in 1..parts[i].len() {
+                let mut c = own.clone();
+                c[i] = parts[i][..cut].to_string();
+                v.push(join(&c));
+            }
+        }
+        v.push(format!("{hdr}{hdr}{rest}"));
+        v.push(format!("{rest}.{}", hdr.trim_end_matches('.')));
+        v.push(format!("{}{rest}", hdr.trim_end_matches('.')));
+    }
     // body damage
     if b.len() > hdr_len {
         for _ in 0..6 {
